@@ -63,10 +63,13 @@ def replay_skew(tag, rec):
         r2 = runs[1]
         if isinstance(r2, str) or isinstance(runs[0], str):
             cl('use_run_no_exception', False, '%s run: %s' % (mp, r2 if isinstance(r2, str) else runs[0]))
-        elif r2:
+        elif r2 and any(len(w) == n for w in r2):
             # (no draw observed at numpy.random.choice: nothing to compare - a generator that draws otherwise is not judged here)
             want = sorted(float(b) for b in exp)
-            bad = [w for w in r2 if len(w) != n or any(abs(a - b) > TOL * max(1.0, abs(b)) for a, b in zip(sorted(w), want))]
+            # (only weight vectors over ALL n agents are judged: a generator that draws one agent at a time over the remaining
+            #  agents hands over renormalised sub-vectors, which the statement does not describe)
+            r2 = [w for w in r2 if len(w) == n]
+            bad = [w for w in r2 if any(abs(a - b) > TOL * max(1.0, abs(b)) for a, b in zip(sorted(w), want))]
             cl('weights_used_for_drawing', not bad,
                '-mp %s, %d rankable agents, run with -skew %r after a run with -skew %r in the same process: %d of %d draws used weights %s, spec %s'
                % (mp, n, p / q, other, len(bad), len(r2), (bad or [None])[0], [str(x) for x in exp]))
